@@ -19,7 +19,7 @@ Plan gen_c21(sk::Rng& r, Tier) {
     p.knobs["interval"] = r.chance(1, 6) ? r.pick<std::int64_t>({0, -3, 4000, 7200}) : r.pick<std::int64_t>({1, 2, 5, 15});
     p.knobs["burst"] = r.chance(1, 10) ? 0 : r.pick<std::int64_t>({1, 2, 4});
     p.knobs["window"] = r.chance(1, 8) ? r.pick<std::int64_t>({0, 5000}) : r.pick<std::int64_t>({5, 20, 120});
-    p.knobs["difficulty"] = r.pick<std::int64_t>({0, 0, 4, 8});
+    p.knobs["difficulty"] = r.chance(1, 2) ? r.pick<std::int64_t>({0, 0, 4, 8}) : r.range(1, 12);   // every residue modulo 8
     p.knobs["min_ttl"] = r.pick<std::int64_t>({5, 30});
     p.knobs["peers"] = r.range(1, 3);
     const std::int64_t I = std::max<std::int64_t>(p.knobs["interval"], 1), W = std::max(std::max<std::int64_t>(p.knobs["window"], 1), I);
@@ -118,7 +118,11 @@ void exec_c21(const Plan& p, Ctx& ctx) {
         if (kind == AssignedMissing) a.assigned_shards = {1, 9};
         std::uint8_t version = static_cast<std::uint8_t>(op.at(4));
         if (kind == OldVersion) { if (difficulty == 0) continue; version = 2; }
-        if (kind == BadPow) { if (difficulty == 0) continue; ref_solve_announce_pow(a, difficulty, false); }
+        if (kind == BadPow) {
+            if (difficulty == 0) continue;
+            // an invalid nonce, in half of the cases the nearest miss there is (exactly one leading zero bit short)
+            if (op.at(1) % 2 == 0) { ref_near_miss_announce_pow(a, difficulty); ctx.boundary("announce_pow_one_bit_short"); } else ref_solve_announce_pow(a, difficulty, false);
+        }
         else ref_solve_announce_pow(a, difficulty, true);
         const std::uint8_t wire_version = version < 1 ? 1 : (version > 4 ? 4 : version);
         const bool admissible = kind == Admissible && !(difficulty > 0 && wire_version < 3);
